@@ -87,7 +87,7 @@ def line(sid, sc):
         sc.get("strategy", 0), sc.get("seed", 1), sc.get("budget", 50000), int(sc.get("coro", 0)), sched)
 
 
-def run_batch(exe, symtab, scenarios, nproc=8, timeout=900):
+def run_batch(exe, symtab, scenarios, nproc=8, timeout=7200):
     """scenarios: list of dicts; returns the list of result dicts (same order)."""
     lines = [line("r%d" % i, sc) for i, sc in enumerate(scenarios)]
     nproc = max(1, min(nproc, len(lines) // 20 + 1))
